@@ -21,8 +21,8 @@ MANIFEST = {
     'technique': 'deductive: VCs from the real AST of _calculate_transitions_matrix / Jumps.matrix / Jumps.jump_diffusivity / Transitions.occupancy discharged by z3; '
                  'counter-models by finite-scope grounding replayed on the real code; bounded stand-ins for the aggregate clauses',
 }
-UNITS = ['unit_matrix', 'unit_matrix_nosite', 'unit_jumps_matrix', 'unit_diffusivity', 'unit_partition', 'unit_occupancy', 'unit_occupancy_lemmas']
-BOUNDED = ['bounded_matrix', 'bounded_bookkeeping', 'bounded_purity']
+UNITS = ['unit_matrix', 'unit_matrix_nosite', 'unit_jumps_matrix', 'unit_diffusivity', 'unit_partition', 'unit_occupancy', 'unit_occupancy_lemmas', 'unit_plumbing', 'unit_dep_from_trajectory']
+BOUNDED = ['bounded_matrix', 'bounded_bookkeeping', 'bounded_purity', 'bounded_plumbing']
 META = {
     'clauses': {
         'C05.matrix': 'P: M[i,j] = Count(rows start=i, dest=j) for tables without NOSITE; with NOSITE rows the cells outside row/column n-1 (known finding C05-nosite-fold for the rest)',
@@ -537,7 +537,7 @@ def bounded_bookkeeping(tier, seed):
         for t in range(T):
             for a in range(N):
                 if t == 0 or rng.random() < 0.3:
-                    new = int(rng.integers(-1, S))
+                    new = int(rng.integers(0 if c % 7 == 3 else -1, S))  # every seventh case: no atom is ever between sites (no NOSITE entry at all)
                     # every third case: several atoms may sit at the same site in the same frame (an atom arriving before the previous one has left);
                     # otherwise one atom per site and frame
                     if new == -1 or c % 3 == 1 or all(cur[b] != new for b in range(N) if b != a):
@@ -576,3 +576,22 @@ from verif.native.purity import make_bounded as _make_purity  # noqa: E402
 from verif.props.purity_reg import REG as _PURITY_REG  # noqa: E402
 PURITY = _PURITY_REG['C05']
 bounded_purity = _make_purity('C05', PURITY)
+
+
+def unit_dep_from_trajectory(tier):
+    """The objects this property is stated about are built by Transitions.from_trajectory: its contract (full-radius states -> .states, inner-fraction
+    states -> .inner_states, events from exactly that pair, trajectory / sites kept) is re-discharged here (C02 owns it)."""
+    from verif.props import c02
+    from verif.props.common import merge_units
+    return merge_units('C05.dep_from_trajectory', [c02.unit_from_trajectory(tier)])
+
+
+# plumbing around the anchored functions: forwarding contracts of the public wrappers, no state shared between calls or objects
+from verif.props import plumbing as _plumbing  # noqa: E402
+
+
+def unit_plumbing(tier):
+    return _plumbing.unit_plumbing(PROPERTY)
+
+
+bounded_plumbing = _plumbing.make_bounded(PROPERTY)
